@@ -310,8 +310,8 @@ def _pool_entry(arg):
     rng = derive_rng(seed, check.pid, i)
     scn = check.gen(rng, tier, i)
     scn.setdefault("property", check.pid)
-    scn["seed"] = seed
-    scn["run"] = i
+    scn["verif_seed"] = seed
+    scn["run_index"] = i
     out = _exec_one(check, scn)
     if out["violations"] or mode == "sample":
         out["scenario"] = scn
@@ -446,8 +446,8 @@ def main_check(check: Check, tier: str, seed: int, replay: str | None, as_json: 
         rng = derive_rng(seed, pid, 0)
         scn0 = check.gen(rng, tier, 0)
         scn0.setdefault("property", pid)
-        scn0["seed"] = seed
-        scn0["run"] = 0
+        scn0["verif_seed"] = seed
+        scn0["run_index"] = 0
         scratch = Path(os.environ.get("TMPDIR", "/tmp")) / f"verif-fresh-{pid}-{os.getpid()}.json"
         scratch.write_text(json.dumps(scn0, default=_jsonable))
         try:
